@@ -192,7 +192,9 @@ def parse(lines, mode='record', defines=None, want_lines=False):
             raise Reject('syntax')
     except Reject as e:
         if want_lines:
-            return (e.kind, lineno)
+            # the events read before the offending line are kept: a conformance fault on an
+            # earlier line is reported first by a reader that works in reading order
+            return (e.kind, lineno, events, where)
         return (e.kind,)
     if want_lines:
         return ('ok', events, [(k, v) for k, v in defines.items()], where)
